@@ -76,3 +76,40 @@ Theorem absorb_parts_export a b :
 Proof.
   intros Hb. unfold export; simpl. rewrite (mk_state_export b Hb). reflexivity.
 Qed.
+
+(* ---------- the contract, stated once for any backend --------------------------------------------------------
+   E     : register type            size / maxq : activeQubits / maxQubits
+   D     : what a register denotes  den : E -> D,  ten : tensor product on D (second factor behind the first),
+                                    zero1 : the one-qubit state |0>
+   good  : registers that can be exported (holding a state)                                                  *)
+Record EngineLaws (E D X : Type) (size maxq : E -> nat) (den : E -> D) (ten : D -> D -> D) (zero1 : D)
+       (good : E -> Prop)
+       (add_fresh : E -> E * eres) (absorb : E -> E -> E * eres)
+       (exportf : E -> X) (absorb_parts : E -> X -> E * eres) : Prop := {
+  law_fresh_ok : forall e, size e < maxq e ->
+      snd (add_fresh e) = RNat (size e) /\ size (fst (add_fresh e)) = S (size e) /\
+      maxq (fst (add_fresh e)) = maxq e /\ den (fst (add_fresh e)) = ten (den e) zero1;
+  law_fresh_refused : forall e, maxq e <= size e -> add_fresh e = (e, RErr ENoQubit);
+  law_absorb_ok : forall a b, size a + size b <= maxq a ->
+      snd (absorb a b) = RUnit /\ size (fst (absorb a b)) = size a + size b /\
+      maxq (fst (absorb a b)) = maxq a /\ den (fst (absorb a b)) = ten (den a) (den b);
+  law_absorb_refused : forall a b, maxq a < size a + size b -> absorb a b = (a, RErr EQuantum);
+  law_export_import : forall a b, good b -> absorb_parts a (exportf b) = absorb a b
+}.
+
+Definition stab_den (e : engine) : nat * tab := (e_n e, e_tab e).
+Definition stab_ten (a b : nat * tab) : nat * tab := (fst a + fst b, tensor (fst a) (snd a) (fst b) (snd b)).
+
+Theorem stab_engine_laws :
+  EngineLaws engine (nat * tab) (list row * nat) e_n e_max stab_den stab_ten (1, [[false; true; false]]) valid_engine
+             (fun e => step e KAddFresh) (fun a b => step a (KAbsorb b))
+             export (fun a x => step a (KAbsorbParts (fst x) (snd x))).
+Proof.
+  constructor.
+  - intros e H. destruct (add_fresh_refusal e) as [_ R]. rewrite (R H). simpl.
+    repeat split; auto. unfold stab_den, stab_ten, add_qubit. simpl. f_equal. lia.
+  - intros e H. destruct (add_fresh_refusal e) as [R _]. auto.
+  - intros a b H. destruct (absorb_refusal a b) as [_ R]. rewrite (R H). simpl. repeat split; auto.
+  - intros a b H. destruct (absorb_refusal a b) as [R _]. auto.
+  - intros a b H. apply absorb_parts_export; auto.
+Qed.
